@@ -1,0 +1,31 @@
+//go:build verif
+
+// Contracts for package gsfa, property C06 (read side of one epoch's address index; comment-only, build tag verif).
+package gsfa
+
+// (*GsfaReader).Get walks the chain of records of one address from the newest record (pointer from the pubkey index)
+// backwards through the previous-record pointers. C06 needs: the walk ends only when `limit` entries were collected or when
+// the chain ends, and the chain ends exactly at a pointer with Offset == 0 AND Size == 0 (the linked log has no header: a real
+// record may sit at offset 0, with a non-zero size). `next` always points at the last pointer read (it is never nil after a
+// successful index lookup), so the condition is stated on it at the return.
+//@ func (*GsfaReader) Get
+//@   mode int
+//@   requires index.offsets != nil && index.ll != nil && index.offsets.index != nil && index.ll.file != nil
+//@   ensures result1 == nil && limit > 0 ==> next != nil && (len(result0) >= limit || (next.Offset == 0 && next.Size == 0))
+//@   ensures result1 == nil && limit > 0 ==> len(result0) <= limit
+//@   loop 0 invariant next != nil && len(allTransactionLocations) <= limit && limit > 0 && index.ll != nil && index.ll.file != nil
+//@   loop 1 invariant next != nil && len(allTransactionLocations) <= limit && limit > 0 && index.ll != nil && index.ll.file != nil
+//@   noframe
+
+// GetBeforeUntil: same walk with the before/until window; a walk that is not cut by `until` or by the limit ends at the end of
+// the chain.
+//@ func (*GsfaReader) GetBeforeUntil
+//@   mode int
+//@   requires index.offsets != nil && index.ll != nil && fetcher != nil && index.offsets.index != nil && index.ll.file != nil
+//@   fncall fetcher ensures true
+//@   ensures result1 == nil && limit > 0 ==> len(result0) <= limit
+//@   loop 0 invariant next != nil && len(allTransactionLocations) <= limit && limit > 0 && index.ll != nil && index.ll.file != nil
+//@   loop 0 invariant before == nil ==> reachedBefore
+//@   loop 1 invariant next != nil && len(allTransactionLocations) <= limit && limit > 0 && index.ll != nil && index.ll.file != nil
+//@   loop 1 invariant before == nil ==> reachedBefore
+//@   noframe
